@@ -242,7 +242,12 @@ func Explore(p *Program, fn *ssa.Function, eo *ExploreOpts) *Result {
 				if nsched > 0 {
 					res.Schedules++
 				}
-				tooMany := eo.MaxPaths > 0 && res.Paths >= eo.MaxPaths
+				nviol := 0
+				for _, n := range res.ViolCount {
+					nviol += n
+				}
+				// enough counterexample paths: exploring thousands more of a broken tree adds nothing
+				tooMany := (eo.MaxPaths > 0 && res.Paths >= eo.MaxPaths) || nviol >= 300
 				rmu.Unlock()
 				st.done()
 				npaths++
